@@ -6,7 +6,7 @@ Init == l = 1 /\ cnt = [events |-> 0, nontrivial |-> 0, jm |-> 0, jd |-> 0, jx |
 Failed(e) == CASE e.ev = "jm" -> JmFailed(e) [] e.ev = "jd" -> JdFailed(e) [] e.ev = "jx" -> JxFailed(e)
 Next == /\ l <= Len(Trace)
         /\ LET e == Trace[l] IN
-           /\ \A x \in Failed(e) : PrintT(<<"VIOL", l, x>>)
+           /\ \A x \in Failed(e) \cup Reread(e) : PrintT(<<"VIOL", l, x>>)
            /\ cnt' = [cnt EXCEPT !.events = @ + 1, ![e.ev] = @ + 1,
                                  !.nontrivial = @ + (IF (e.ev = "jm" /\ e.m.ok /\ e.ty # e.v.ty) \/ (e.ev = "jd" /\ e.um.ok /\ e.doc.j \in {"arr", "obj"}) THEN 1 ELSE 0)]
         /\ l' = l + 1
